@@ -15,6 +15,7 @@
                M <n> {<key> <value>}*                (block map)
                F <5 bits>                            (model fromgeo(geo, map) vs the original grid: block names,
                                                       volumes, connection names, directions, distances; 1e-9)
+               H <3 bits>                            (isLine holds on the spacing tracks in directions 1, 2, 3)
           | bad <msg>
 -/
 import PyTough.Model.RectGeo
@@ -148,6 +149,16 @@ def regenerated (T : TGrid) (maxVol : Rat) (g : Geo) (mp : BlockMap) : String :=
       closeQ (a.d0.coef * a.d0.coef * a.d0.rad) (b.d0 * b.d0) &&
       (closeQ (a.d1.coef * a.d1.coef * a.d1.rad) (b.d1 * b.d1) || boundary.contains a.b1)))
 
+/-- hypothesis of `direction_track_sizes` on the three spacing tracks of this grid -/
+def lineBits (T : TGrid) (p : Params) (ob : GBlock) : String :=
+  let b (x : Bool) : String := if x then "1" else "0"
+  let one (start : GBlock) (k : Nat) : Bool :=
+    let steps := stepsFrom T k (some p.maxVol) (T.blocks.length + 1) start none
+    volOk (some p.maxVol) start && decide (steps.length ≤ T.blocks.length) && isLine T k (some p.maxVol) none none start steps
+  b (one ob 1) ++ b (one ob 2) ++ (match topmostBlock T (some p.maxVol) with
+    | .ok tb => b (one tb 3)
+    | .error _ => "0")
+
 def handleRectgeo (T : TGrid) (p : Params) : String :=
   match stage1 T p with
   | .error e => "exc " ++ e.toString
@@ -163,7 +174,7 @@ def handleRectgeo (T : TGrid) (p : Params) : String :=
       s!" C {g.columns.length} " ++ " ".intercalate (g.columns.map showColumn) ++
       s!" N {g.blockNames.length} " ++ " ".intercalate (g.blockNames.map showName) ++
       s!" M {mp.length} " ++ " ".intercalate (mp.map fun kv => showName kv.1 ++ " " ++ showName kv.2) ++
-      " F " ++ regenerated T p.maxVol g mp
+      " F " ++ regenerated T p.maxVol g mp ++ " H " ++ lineBits T p s.ob
 
 def handle : List String → String
   | "rectgeo" :: rest =>
